@@ -77,6 +77,11 @@ func init() {
 		Stubs:  []string{"math/rand source (tower-height words from the run seed, per-run distribution)", "time.Now (seed of the list's PRNG)"},
 		Rule:   "cases = (list flavour and key type/comparator, start state New/Init/zero value, tower-word distribution, 2..60 operations over every method with bounds from present/absent/gap keys) drawn from the run seed; non-trivial = the list drew tower words under a non-production distribution or built a tower of >=3 levels, or started from the zero value; distinct = distinct hash of (params, operations, env seed) over such runs",
 		Assume: seqAssume}
+	props["C03"] = &propCfg{ID: "C03", Engine: "C", Pkgs: "listz,setz", Imports: "time=stime,math/rand=smrand", Level: "exploration", QuickS: 20, ThorS: 480,
+		Real:   []string{"setz/roaring_bitmap.go, setz/iter.go, setz/bits.go, listz/skip.go (every statement)"},
+		Stubs:  []string{"math/rand source of the embedded bucket skip list (tower-height words from the run seed)", "time.Now (seed of that PRNG)"},
+		Rule:   "cases = (bucket keys, tower-word distribution, operations Add/Remove/Contains/Len, arithmetic runs of 300..5000 values added/removed ascending/descending/shuffled so buckets cross 4096 both ways, enumerations by Iter/Range/All complete and early-stopped) drawn from the run seed; non-trivial = the bucket list drew >=2 tower words and (a non-production tower distribution was in force or a conversion/emptying/re-population probe fired); distinct = distinct hash of (params, operations, env seed) over such runs",
+		Assume: seqAssume}
 }
 
 var scratch string
